@@ -1007,6 +1007,23 @@ pub struct ServerPool {'''),
                                 shard_conflict.get_or_insert(err);
                             }""", new="""                            self.handle_inferred_shard(inferred_shard, &mut prev_inferred_shard)?;
                             let _ = &mut shard_conflict;"""),
+    dict(id="c06-placeholders-not-cleared", prop="C06", file="src/query_router.rs", expect="C06-R6",
+         what="infer() keeps the key positions of earlier statements (D49 again)",
+         old="""        self.placeholders.clear();
+
+        if !self.pool_settings.query_parser_read_write_splitting {""", new="""        if !self.pool_settings.query_parser_read_write_splitting {"""),
+    dict(id="c06-activity-shortcut-skips-shard", prop="C06", file="src/query_router.rs", expect="C06-R6",
+         what="the mutation-cache shortcut goes on to the next statement without deriving the shard (D50 again)",
+         old="""                        self.active_role = Some(Role::Primary);
+                        primary_set_based_on_activity = true;
+                    }
+
+                    // Decide the role before anything below can bail out.""", new="""                        self.active_role = Some(Role::Primary);
+                        primary_set_based_on_activity = true;
+                        continue;
+                    }
+
+                    // Decide the role before anything below can bail out."""),
     # ------------------------------------------------------------------ C17
     dict(id="c17-shutdown-checked-in-transaction", prop="C17", file="src/client.rs", expect="C17-R1",
          what="the transaction loop also reacts to the shutdown broadcast",
